@@ -20,6 +20,8 @@ COQ_CHECK = "check"
 COQ_CASE_TYPE = "case_t"
 SHARD = 150
 TRUSTED = L.TRUSTED_COMMON + [
+    "translator self-test (every run): 19 synthetic transform / wrapper classes with shapes outside the accepted list "
+    "(translate_rng.ACCEPTS) must abort, 3 well-formed controls must be accepted",
     "equal draw sequences give equal pixels: torchvision / PIL / torch determinism (observed by comparing the two "
     "instances bit for bit, not proved)",
 ]
@@ -32,7 +34,8 @@ ALLOWED_AXIOMS = []
 RULE = ("every registered class x every constructor-argument set as a leaf and inside KDComposeTransform, plus random "
         "trees (depth<=4) of compose / random-apply / patchwise / scheduled / transform-choice over shape-preserving "
         "leaves and foreign callables, plus the ready-made pipelines on PIL input; per case two global seeds, two "
-        "different histories (calls, earlier injections, worker_init_fn), 2-5 inputs; non-trivial = the injected "
+        "different histories (calls, earlier injections, worker_init_fn), 2-5 inputs, injected seed 0 in ~12% of the "
+        "cases; non-trivial = the injected "
         "generator was drawn from and no call raised; distinct by (tree signature, input kind, history shapes)")
 
 
@@ -46,13 +49,15 @@ def pre_build():
 def _history(rng, allow_wi):
     h = []
     for _ in range(rng.choice([0, 1, 2, 3])):
-        h.append(rng.choice([["call", rng.randrange(1000)], ["call", rng.randrange(1000)], ["inject", rng.randrange(100)]]))
+        h.append(rng.choice([["call", rng.randrange(1000)], ["call", rng.randrange(1000)],
+                             ["inject", rng.choice([0, rng.randrange(100)])]]))
     return h
 
 
 def mk_case(rng, spec, kind, S):
     wi = rng.random() < 0.3
-    return {"kind": "tree", "spec": spec, "input": kind, "S": S, "seed": rng.randrange(10 ** 6),
+    return {"kind": "tree", "spec": spec, "input": kind, "S": S,
+            "seed": 0 if rng.random() < 0.12 else rng.randrange(10 ** 6),     # 0 is a seed like any other (falsy!)
             "ga": rng.randrange(10 ** 6), "gb": rng.randrange(10 ** 6), "ha": _history(rng, wi), "hb": _history(rng, wi),
             "wi": wi, "n": rng.choice([2, 3, 5]), "xseed": rng.randrange(10 ** 6)}
 
@@ -77,7 +82,7 @@ def class_cases(rng, info, reps=1):
                     out.append(mk_case(rng, {"c": "KDComposeTransform", "k": [{"c": name, "a": a}]}, kind, S))
     for c in L.CONTAINERS:
         if c not in names:
-            out.append({"kind": "unregistered", "cls": c + " (container class missing from the table)"})
+            out.append({"kind": "unregistered", "cls": c, "why": "container"})
     return out
 
 
@@ -95,6 +100,8 @@ def gen_cases(rng, tier):
     out = []
     if info["errors"]:
         out.append({"kind": "translator", "errors": info["errors"]})
+    # the translator is trusted modulo the live comparison; its fail-closed behaviour is tested on synthetic sources
+    out.append({"kind": "translator_selftest"})
     out += class_cases(rng, info, reps=1 if tier == "quick" else 3)
     out += [tree_case(rng) for _ in range(200 if tier == "quick" else 3000)]
     return out
@@ -173,8 +180,21 @@ def has_class(spec, name):
 
 def run_impl(case):
     import numpy as np
-    if case.get("kind") in ("unregistered", "translator"):
+    if case.get("kind") == "unregistered":
+        # evaluated against the tree under test (a replay on another tree must not repeat a stale verdict)
+        info = T.regenerate()
+        by_name = {d["name"]: d for d in info["classes"]}
+        name = case["cls"].split(" ")[0]
+        if case.get("why") == "container" or "container class missing" in case["cls"]:
+            return {"unregistered": name not in by_name,
+                    "errors": [e for e in info["errors"] if e.startswith(name + ":")][:2]}
+        d = by_name.get(name)
+        return {"unregistered": d is not None and name not in L.REG and bool(d["draw_self"] or d["calls"] or d["draw_glob"]),
+                "errors": []}
+    if case.get("kind") == "translator":
         return {"skipped": case["kind"]}
+    if case.get("kind") == "translator_selftest":
+        return {"selftest": T.selftest()}
     spec, S, kind = case["spec"], case["S"], case["input"]
     xs = [L.make_input(kind, S, case["xseed"] + i) for i in range(case["n"])]
     obs = {}
@@ -227,9 +247,22 @@ def oracle(case, obs):
     if "harness_exception" in obs:
         return "harness exception: " + obs["harness_exception"] + obs.get("tb", "")
     if case.get("kind") == "unregistered":
+        if not obs.get("unregistered"):
+            return None
+        if case.get("why") == "container" or "container class missing" in case["cls"]:
+            return (f"container class {case['cls'].split(' ')[0]} has no row in the generated table (the translator does not "
+                    f"understand its source: {obs.get('errors')}); compositions cannot be checked (fail closed)")
         return f"class {case['cls']} draws random numbers but has no constructor arguments in the registry (fail closed)"
     if case.get("kind") == "translator":
         return None   # reported through the broken build; the search looks for the concrete failing input
+    if case.get("kind") == "translator_selftest":
+        bad = [r for r in obs["selftest"] if r["expected"] != r["got"]]
+        n_neg = sum(1 for r in obs["selftest"] if r["expected"] == "abort")
+        if bad or n_neg < 15:
+            return ("translator self-test failed (harness/translate_rng.py must abort on shapes it does not understand and "
+                    f"accept the well-formed controls; {n_neg} negative sources): " + "; ".join(
+                        f"{r['name']}: expected {r['expected']}, got {r['got']} ({r['detail']})" for r in bad))
+        return None
     sig = L.spec_sig(case["spec"])
     if "construct_error" in obs:
         return f"{sig}: construction failed: {obs['construct_error']}"
@@ -279,6 +312,10 @@ def coq_case(case, obs):
 
 
 def features(case, obs):
+    if case.get("kind") == "translator_selftest":
+        for r in obs.get("selftest", []):
+            yield "translator_selftest=" + r["got"]
+        return
     if case.get("kind") != "tree":
         yield "kind=" + str(case.get("kind"))
         return
